@@ -247,17 +247,49 @@ def gen_builder_script(rng, n):
     ops, nl, ns = [], 0, 1
     for _ in range(n):
         c = rng.random()
-        if c < 0.25:
+        if c < 0.16:
             ops.append("n"); nl += 1
-        elif c < 0.45:
+        elif c < 0.30:
             ops.append("b%d" % rng.randrange(nl + 2))
-        elif c < 0.60:
+        elif c < 0.42:
             ops.append("s%d" % rng.randrange(ns + 1))
-        elif c < 0.70:
+        elif c < 0.49:
             ops.append("S%d" % rng.choice([0, 0, 5, -3])); ns += 1
+        elif c < 0.56:
+            ops.append("C%d" % rng.randrange(40))
+        elif c < 0.62:
+            ops.append("p%d" % rng.randrange(nl + 1))
+        elif c < 0.68:
+            ops.append("c")
+        elif c < 0.74:
+            ops.append("E%d" % rng.randrange(nl + 3))
+        elif c < 0.80:
+            ops.append(rng.choice("le"))
         else:
             ops.append("i")
     return ["S", "builder", "MASK"] + ops
+
+
+def gen_vm_script(rng, n, dual):
+    ops, kinds = [], []          # kinds of the handles created so far: 'm', 'd', 'b', or None once released
+    for _ in range(n):
+        c = rng.random()
+        live = [i for i, k in enumerate(kinds) if k]
+        if live and c < 0.3:
+            i = rng.choice(live)
+            ops.append(("x%d" if kinds[i] == "b" else "u%d") % i)
+            if rng.random() < 0.9: kinds[i] = None          # sometimes release twice (refused)
+        elif c < 0.5:
+            ops.append("m%d" % rng.choice([4, 64, 256])); kinds.append("m")
+        elif c < 0.7:
+            ops.append("d%d" % rng.choice([64, 128])); kinds.append("d")
+        else:
+            ops.append("b%d" % rng.choice([64, 128, 1024])); kinds.append("b")
+    return ["S", "vmd" if dual else "vm", "MASK"] + ops
+
+
+def gen_ra_script(rng, n):
+    return ["S", "ra", "MASK"] + [("g%d" if rng.random() < 0.45 else "a%d") % rng.randrange(8) for _ in range(n)]
 
 
 def with_mask(script, mask):
@@ -266,8 +298,8 @@ def with_mask(script, mask):
 
 def parse_answer(ans):
     """'S kind tok tok ... | dump [| dump] req=N' -> (kind, [tok], [dump strings], req)"""
-    m = re.search(r" req=(\d+)$", ans)
-    req = int(m.group(1)) if m else -1
+    m = re.search(r" req=(\d+)(?:,(\d+))?$", ans)
+    req = (int(m.group(1)) if m.group(2) is None else (int(m.group(1)), int(m.group(2)))) if m else -1
     body = ans[:m.start()] if m else ans
     parts = body.split(" | ")
     head = parts[0].split()
@@ -406,36 +438,105 @@ def judge_script(cmd, ans):
             by = [int(x) for x in dumps[3].split(",")] if dumps[3] != "-" else []
             if sorted(by) != list(range(len(orders))) or any((orders[by[i]], by[i]) > (orders[by[i + 1]], by[i + 1]) for i in range(len(by) - 1)):
                 bad.append(("holder/sections-by-order", "sections_by_order %s is not the ids sorted by (order, id) for orders %s" % (by, orders)))
+    elif kind == "ra":
+        ops = t[3:]
+        home = [False] * 8
+        nslots = 0
+        for op, tok in zip(ops, toks):
+            r, ns, cap, bits = tok.split("/")
+            r, ns = int(r), int(ns)
+            w = int(op[1:]) % 8
+            cur = [c == "1" for c in bits]
+            if op[0] == "g":
+                if r == 0 and not cur[w]:
+                    bad.append(("ra/ok-without-slot", "%s reported a slot but the work register has none" % op))
+                if r != 0 and (cur != home or ns != nslots):
+                    bad.append(("ra/failed-get-changed-state", "%s failed but slots %d -> %d, homes %s -> %s" % (op, nslots, ns, home, cur)))
+            others_same = all(cur[i] == home[i] for i in range(8) if i != w)
+            if not others_same or (home[w] and not cur[w]) or ns != sum(cur) or ns < nslots:
+                bad.append(("ra/slot-bookkeeping", "after %s: %d slots, homes %s (before: %d, %s)" % (op, ns, bits, nslots, home)))
+            home, nslots = cur, ns
+        owners = [] if dumps[0] == "-" else dumps[0].split()
+        if len(set(owners)) != len(owners) or "-1" in owners:
+            bad.append(("ra/slot-owners", "slot owners %s are not distinct work registers" % owners))
+    elif kind in ("vm", "vmd"):
+        ops = t[3:]
+        maps, heap = 0, 0
+        nviews = {"m": 1, "d": 2, "b": 2 if kind == "vmd" else 1}
+        handles = []
+        for op, tok in zip(ops, toks):
+            r, lm, lh = map(int, tok.split("/"))
+            c = op[0]
+            if c in "mdb":
+                if r == 0:
+                    maps += nviews[c]; heap += (1 if c == "b" else 0); handles.append((nviews[c], 1 if c == "b" else 0))
+                else:
+                    handles.append(None)
+            elif c in "ux" and r == 0:
+                i = int(op[1:])
+                if i >= len(handles) or handles[i] is None:
+                    bad.append(("vm/release-accepted", "%s accepted for a handle that is not live" % op))
+                else:
+                    maps -= handles[i][0]; heap -= handles[i][1]; handles[i] = None
+            if (lm, lh) != (maps, heap):
+                what = "leaked" if (lm > maps or lh > heap) else "lost"
+                bad.append(("vm/%s/%s" % ("failed-op-" + what if r != 0 else "ok-op-" + what, c),
+                            "%s (result %d): %d live mappings / %d live block records, expected %d / %d" % (op, r, lm, lh, maps, heap)))
+                break
+        if dumps and dumps[0] != "end 0/0/0":
+            bad.append(("vm/leak-at-end", "after releasing everything and destroying the allocator: mappings/heap blocks/fds = %s" % dumps[0]))
     elif kind == "builder":
         ops = t[3:]
-        # replay: the node list must be exactly what the successful operations build (independent python replay)
-        secs, cur, bound, nlab, nsec = [[0, []]], 0, set(), 0, 1
+        # independent replay of the flat node list with its cursor: exactly the successful operations take effect
+        nodes, cur, bound, nlab, nsec = ["S0"], 0, set(), 0, 1
         pln, psn = 0, 1
         for op, tok in zip(ops, toks):
-            r, nl, ln, sn, ns = map(int, tok.split("/"))
+            r, nl, ln, sn, ns, rc = map(int, tok.split("/"))
             if r != 0 and (ln < pln or sn < psn):
                 bad.append(("builder/failed-op-dropped-nodes", "%s failed (result %d) and the label/section node tables shrank (%d,%d) -> (%d,%d)" % (op, r, pln, psn, ln, sn)))
             pln, psn = ln, sn
-            if op[0] == "n":
+            c = op[0]
+            def add(x):
+                nonlocal cur
+                nodes.insert(cur + 1, x); cur += 1
+            if c == "n":
                 if r == 0: nlab += 1
                 elif nl not in (nlab, nlab + 1):
                     bad.append(("builder/label-count", "failed new_label changed the label count %d -> %d" % (nlab, nl)))
                 else: nlab = nl          # an orphan label may stay in the holder
-            elif op[0] == "S" and r == 0: nsec += 1
-            elif op[0] == "i" and r == 0:
-                [x for x in secs if x[0] == cur][0][1].append("I")
-            elif op[0] == "b" and r == 0:
+            elif c == "S" and r == 0: nsec += 1
+            elif c in "ileEc" and r == 0:
+                add({"i": "I", "l": "A", "e": "D", "c": "C"}.get(c) or ("E" + op[1:]))
+            elif c == "b" and r == 0:
                 li = int(op[1:])
                 if li in bound or li >= nlab: bad.append(("builder/bind-accepted", "%s accepted (bound %s, labels %d)" % (op, li in bound, nlab)))
-                bound.add(li); [x for x in secs if x[0] == cur][0][1].append("L%d" % li)
-            elif op[0] == "s" and r == 0:
+                bound.add(li); add("L%d" % li)
+            elif c == "s" and r == 0:
                 sid = int(op[1:])
                 if sid >= nsec: bad.append(("builder/section-accepted", "%s accepted with %d sections" % (op, nsec)))
-                if not [x for x in secs if x[0] == sid]: secs.append([sid, []])
-                cur = sid
-            if nl != nlab or ns != nsec:
-                bad.append(("builder/counts", "after %s (result %d): labels %d sections %d, expected %d %d" % (op, r, nl, ns, nlab, nsec))); break
-        want = " ".join("S%d%s" % (sid, "".join(" " + x for x in ns_)) for sid, ns_ in secs)
-        if dumps and dumps[0] != want:
+                tag = "S%d" % sid
+                if tag in nodes:
+                    p = nodes.index(tag); q = p + 1
+                    while q < len(nodes) and not nodes[q].startswith("S"): q += 1
+                    cur = q - 1
+                else:
+                    nodes.append(tag); cur = len(nodes) - 1
+            elif c == "C":
+                cur = int(op[1:]) % len(nodes)
+            elif c == "p":
+                li = int(op[1:])
+                if r == 0:
+                    add("A"); add("L%d" % li); add("D"); bound.add(li)
+                elif r == 1 and rc in (cur + 1, cur + 2):
+                    # the code before fixes/C15-embed-const-pool-atomic.patch: the align node (and the bound label) stay behind
+                    bad.append(("builder/const-pool-partial", "embed_const_pool failed (kOutOfMemory) but left %d node(s) behind the cursor (align node%s)"
+                                % (rc - cur, " and the bound label" if rc == cur + 2 else "")))
+                    extra = rc - cur
+                    add("A")
+                    if extra == 2: add("L%d" % li); bound.add(li)
+            if nl != nlab or ns != nsec or rc != cur:
+                bad.append(("builder/counts", "after %s (result %d): labels %d sections %d cursor %d, expected %d %d %d" % (op, r, nl, ns, rc, nlab, nsec, cur))); break
+        want = " ".join(nodes)
+        if dumps and dumps[0] != want and not any(k.startswith("builder/counts") for k, _ in bad):
             bad.append(("builder/node-list", "node list %r differs from what the successful operations build %r" % (dumps[0][:200], want[:200])))
     return bad
